@@ -120,14 +120,27 @@ def impl(op, a):
     if op == 1376:
         p, conf = _pdu(a)
         for o in a[4:]:
-            if o and o[0] == 0:
-                p.segment_requests = _segs(o[1:])
-            elif len(o) >= 2 and o[0] == 1:
-                p.file_flag = h5._e(D.LargeFileFlag, o[1])
-            elif len(o) >= 2 and o[0] == 2:
-                p.start_of_scope = o[1]
-            elif len(o) >= 2 and o[0] == 3:
-                p.end_of_scope = o[1]
+            try:
+                if o and o[0] == 0:
+                    p.segment_requests = _segs(o[1:])
+                elif len(o) >= 2 and o[0] == 1:
+                    p.file_flag = h5._e(D.LargeFileFlag, o[1])
+                elif len(o) >= 2 and o[0] == 2:
+                    p.start_of_scope = o[1]
+                elif len(o) >= 2 and o[0] == 3:
+                    p.end_of_scope = o[1]
+            except ValueError:
+                # offsets the file-size width (as it is, or as the step would make it) cannot hold: the unchanged library
+                # stores them and refuses at pack(); refused at the assignment instead, the PDU stays as it was (judged
+                # on the views / lengths / packs below) and the history goes on.  Every other refusal ends the case.
+                large = o[1] if len(o) >= 2 and o[0] == 1 else int(p.file_flag)
+                if large not in (0, 1):
+                    raise
+                vals = [p.start_of_scope, p.end_of_scope] + _flat(p.segment_requests)
+                if o[0] == 0: vals = list(o[1:])
+                elif o[0] in (2, 3): vals = [o[1]]
+                if all(0 <= v < 256 ** (8 if large else 4) for v in vals):
+                    raise
         return _fields(p) + [_pack_res(p), _pack_res(p)] + _conf_lists(conf)
     if op == 1377:
         return [[int(_pdu(a[:4])[0] == _pdu(a[4:8])[0])]]
@@ -585,6 +598,9 @@ def oracle(case, ires, sres):
             ids, flags, (mx,) = a
         if not (h5.ubf_ok(ids[0], ids[1]) and h5.ubf_ok(ids[2], ids[3]) and h5.ubf_ok(ids[4], ids[5])) or flags[1] not in (0, 1) or flags[2] not in (0, 1):
             return None
+        if err and code in VALUE_CODES and not h5.valid_args(ids, flags, [0, 0, 0]):
+            return None     # IDs of different widths / of width 0, a flag outside its enum: no PDU has such a configuration;
+            #                 PduConfig may refuse to be built (the unchanged one is a plain record and just adds the widths)
         w2 = 16 if flags[1] else 8
         base = 4 + ids[1] + ids[3] + ids[5] + 1 + (2 if flags[2] else 0) + w2
         if mx < base:
